@@ -187,7 +187,8 @@ CLI_SITES = [
     ("rpe", "save_results"), ("rpe", "save_plot_pdf"), ("rpe", "save_plot_png"), ("rpe", "serialize_plot"),
     ("traj", "save_as_tum"), ("traj", "save_as_tum_ref"), ("traj", "save_as_kitti"), ("traj", "save_as_kitti_ref"), ("traj", "save_table"),
     ("traj", "save_plot_pdf"), ("traj", "serialize_plot"),
-    ("res", "save_table"), ("res", "save_plot_pdf"), ("res", "serialize_plot"),
+    ("res", "save_table"), ("res", "save_plot_pdf"), ("res", "serialize_plot"), ("res", "save_table_titles"),
+    ("traj", "save_as_tum_same_stem"),
     ("config", "generate"),
 ]
 PLOT_SITES = {s for s in CLI_SITES if "plot" in s[1]}
@@ -222,6 +223,8 @@ def run_cli_site(case):
             argv += ["--save_plot", os.path.join(d, "plots.png")]
         elif site == "serialize_plot":
             argv += ["--serialize_plot", tgt("plots.pickle", "pickle")]
+    elif app == "traj" and site == "save_as_tum_same_stem":
+        return _same_stem_case(case, d, ind, P, P2, Q, T, nw)
     elif app == "traj":
         argv = ["tum", os.path.join(ind, "traj_a.txt"), "--silent"] + nw
         if site.endswith("_ref"):
@@ -248,7 +251,8 @@ def run_cli_site(case):
         files = []
         for k in range(2):
             r = result.Result()
-            r.add_info({"title": "APE w.r.t. translation part (m)", "est_name": "est_%d" % k, "label": "APE (m)", "ref_name": "r"})
+            title = "APE w.r.t. translation part (m)" if (k == 0 or site != "save_table_titles") else "APE w.r.t. rotation part (unit-less)"
+            r.add_info({"title": title, "est_name": "est_%d" % k, "label": "APE (m)", "ref_name": "r"})
             r.add_stats({"rmse": 1.0 + k, "mean": 0.5, "median": 0.4, "std": 0.1, "min": 0.0, "max": 2.0, "sse": 4.0})
             r.add_np_array("error_array", np.array([1.0, 2.0, 0.5 + k]))
             r.add_np_array("timestamps", np.array([0.0, 1.0, 2.0]))
@@ -256,7 +260,7 @@ def run_cli_site(case):
             file_interface.save_res_file(p, r)
             files.append(p)
         argv = files + ["--silent"] + nw
-        if site == "save_table":
+        if site in ("save_table", "save_table_titles"):
             argv += ["--save_table", tgt("table.csv", "csv")]
         elif site == "save_plot_pdf":
             argv += ["--save_plot", tgt("plots.pdf", "pdf")]
@@ -270,6 +274,9 @@ def run_cli_site(case):
     before = set(os.listdir(d))
     if app == "config":
         out = cli.run_config(argv, answers=[case["answer"]] * 4, cwd=d)
+    elif site == "save_table_titles":
+        # the first prompt (conflicting titles) is answered with 'y'; confirming that is no licence to overwrite files
+        out = cli.run(app, argv, answers=(["y"] if case["confirm"] else []) + [case["answer"]] * 6, cwd=d)
     else:
         out = cli.run(app, argv, answers=[case["answer"]] * 6, cwd=d)
     if out.exit_code != 0:
@@ -277,6 +284,54 @@ def run_cli_site(case):
     prompts = [p for p in out.prompts if "overwrite" in p]
     _judge(case, targets, prompts, kinds, before, d, "evo_%s:%s" % (app, site))
     return "evo_%s:%s" % (app, site)
+
+
+def _same_stem_case(case, d, ind, P, P2, Q, T, nw):
+    """two inputs export to the same file name: the second export meets a file that the first one has just written"""
+    for sub, pos in (("a", P), ("b", P2 + 5.0)):
+        os.makedirs(os.path.join(ind, sub))
+        open(os.path.join(ind, sub, "traj.txt"), "w").write(rm.write_tum(T, pos, Q))
+    target = os.path.join(d, "traj.tum")
+    pre_existing = case["exists"] != "none"
+    if pre_existing:
+        open(target, "wb").write(SENTINEL)
+    out = cli.run("traj", ["tum", os.path.join(ind, "a", "traj.txt"), os.path.join(ind, "b", "traj.txt"), "--save_as_tum", "--silent"] + nw,
+                  answers=[case["answer"]] * 6, cwd=d)
+    label = "evo_traj:save_as_tum_same_stem"
+    if out.exit_code != 0:
+        raise Mismatch("%s failed: %s" % (label, out.refused), observed="cli_failed", site=label)
+    prompts = [p for p in out.prompts if "overwrite" in p]
+    data = open(target, "rb").read() if os.path.exists(target) else None
+    first = rm.write_tum(T, P, Q)
+    second = rm.write_tum(T, P2 + 5.0, Q)
+
+    def is_traj(data, which):
+        try:
+            t, p, q = rm.parse_tum(data.decode())
+        except Exception:
+            return False
+        return bool(np.allclose(p, P if which == 1 else P2 + 5.0, rtol=0, atol=1e-12))
+    if not case["confirm"]:
+        if prompts:
+            raise Mismatch("%s: prompt although warnings are disabled" % label, observed="spurious_prompt", site=label)
+        if data is None or not is_traj(data, 2):
+            raise Mismatch("%s: with --no_warnings the last export must be in place" % label, observed="not_written", site=label)
+        return label
+    expected_prompts = 2 if pre_existing else 1
+    if len(prompts) != expected_prompts:
+        raise Mismatch("%s: %d overwrite prompts, expected %d (the file written for the first trajectory exists when the second is saved%s)" % (
+            label, len(prompts), expected_prompts, ", and the target existed before" if pre_existing else ""), observed="no_prompt", site=label)
+    if case["answer"] == "y":
+        if data is None or not is_traj(data, 2):
+            raise Mismatch("%s: confirmed, but the last export is not in place" % label, observed="not_replaced", site=label)
+    else:
+        if pre_existing:
+            if data != SENTINEL:
+                raise Mismatch("%s: existing file changed although the answer was %r" % (label, case["answer"]), observed="overwritten", site=label, answer=case["answer"])
+        elif data is None or not is_traj(data, 1):
+            raise Mismatch("%s: the export of the first trajectory was overwritten by the second without confirmation (answer %r)" % (label, case["answer"]),
+                           observed="overwritten", site=label, answer=case["answer"])
+    return label
 
 
 def sub_combo(case):
